@@ -299,6 +299,11 @@ def check_message(ctx, spy, m, info):
         relcol = m.origin is not None and pv != want_view and relative_collision(w, m.origin)
         for i in range(4):
             if m2.section_count(i) != walk["counts"][i] and not relcol:
+                if collide and m2.section_count(i) < walk["counts"][i]:
+                    # two records of one RRset that differ only in the letter case of a name the compressor shares (types
+                    # outside RFC 4034 6.2 compare case-sensitively): they leave as the same octets and come back as one
+                    ctx.count("obs.case_variant_records_merged_by_compression")
+                    continue
                 ctx.violation("parsed-section_count-differs-from-header", f"section {i}", case)
         # --- second rendering without shuffling reproduces the bytes
         ctx.count("mon.rerender_identical")
